@@ -1,5 +1,6 @@
 import GtirbVerif.Spec.Scopes
 import GtirbVerif.Lemmas.SortOn
+import GtirbVerif.Lemmas.Store
 
 /-!
 # C07 — each registered insertion lands exactly once, exactly where asked
@@ -14,6 +15,18 @@ import GtirbVerif.Lemmas.SortOn
   offset the position prescribes; that offset is 0 or the end of the non-terminator
   instructions — an instruction boundary not after the terminator; inside a block invocations
   are ordered by offset and, at one offset, by registration order.
+* **model** — `Store.*` (Model/Rewrite/Store.lean) follows `_ModificationStore.add`,
+  `modifications_for_block`, `resolve_offsets` and the scope classes of `scopes.py` statement by
+  statement; the correspondence runs the real store and the model on the same registrations and
+  blocks (every block of every generated module, plus request lists with replacements, deletions
+  and overlaps that `apply()` would refuse) and compares the answers.
+* **theorems about the model** (for every list of registrations, in any order, and every block):
+  the store hands out exactly the registrations whose scope designates the block, each exactly as
+  often as it was registered, whatever else was registered in between; `resolve_offsets` answers
+  with a permutation of what it was given - nothing dropped, nothing doubled -, each at the first
+  potential offset of its scope, in listing order (offset; insertions before the replacement or
+  deletion that starts there; registration id), pairwise non-overlapping; and it refuses a
+  request list exactly when two requests overlap in that order.
 -/
 namespace GtirbVerif.Props.C07
 open GtirbVerif GtirbVerif.IR GtirbVerif.Listing GtirbVerif.Scopes
@@ -91,5 +104,93 @@ theorem exit_offset_le_size (ir : IR) (b : Block) (sizes : List Nat) : beforeTer
       cases xs with
       | nil => simp
       | cons y ys => simp only [List.dropLast_cons_cons, List.sum_cons] at ih ⊢; omega
+
+/-! ### the model of `_ModificationStore` and `scopes.py` -/
+section store
+open GtirbVerif.Store
+
+/-- **each registration reaches exactly the blocks its scope designates, once**: after any sequence
+of `add`s, the modifications for a block are (up to order) the registered ones whose scope matches -/
+theorem store_hands_out_exactly_the_designated (ms : List Mod) (env : BlockEnv) :
+    ((build ms).modificationsFor env).Perm (ms.filter (fun m => blockMatches env m.scope)) :=
+  modificationsFor_build ms env
+
+/-- ... so a registration with a unique id is handed out for a block exactly once if its scope
+matches, and never otherwise -/
+theorem store_count (ms : List Mod) (env : BlockEnv) (m : Mod) :
+    ((build ms).modificationsFor env).count m = if blockMatches env m.scope then ms.count m else 0 := by
+  rw [(modificationsFor_build ms env).count_eq]
+  by_cases h : blockMatches env m.scope = true
+  · simp only [h, if_true]
+    exact List.count_filter (by simpa using h)
+  · have hf : blockMatches env m.scope = false := by simpa using h
+    simp only [hf, Bool.false_eq_true, if_false]
+    apply List.count_eq_zero.mpr
+    intro hm
+    have := (List.mem_filter.mp hm).2
+    simp [hf] at this
+
+/-- **nothing dropped, nothing doubled, each where its scope puts it, in listing order, disjoint** -/
+theorem resolve_offsets_answer {env : BlockEnv} {mods : List Mod} {r : List (Mod × Nat)}
+    (h : resolveOffsets env mods = .ok r) :
+    (r.map (·.1)).Perm mods ∧
+    (∀ x ∈ r, firstOffset env (haveDisFor env mods) x.1.scope = .ok x.2) ∧
+    r.Pairwise Before ∧ r.Pairwise Clear :=
+  resolve_ok h
+
+/-- **a non-overlapping request list is never refused** -/
+theorem resolve_offsets_accepts_non_overlapping {env : BlockEnv} {mods : List Mod} {l : List (Mod × Nat)}
+    (hl : offsetsOf env (haveDisFor env mods) mods = .ok l) (hc : (sortK l).Pairwise Clear) :
+    resolveOffsets env mods = .ok (sortK l) :=
+  resolve_accepts hl hc
+
+/-- **an overlapping one is refused as a whole** (the assertion; nothing is applied) -/
+theorem resolve_offsets_refuses_overlap {env : BlockEnv} {mods : List Mod} {l : List (Mod × Nat)}
+    (hl : offsetsOf env (haveDisFor env mods) mods = .ok l) (hc : ¬ (sortK l).Pairwise Clear) :
+    resolveOffsets env mods = .error (.assertion "modifications overlap") :=
+  resolve_refuses hl hc
+
+/-- scope positions: ENTRY and ANYWHERE resolve to offset 0, EXIT to the end of the instructions that
+are not the terminator -/
+theorem scope_offset (env : BlockEnv) (hd : Bool) (sc : Store.Scope) (off : Nat) (h : firstOffset env hd sc = .ok off)
+    (hs : ∀ b o r, sc ≠ .specific b o r) : off = 0 ∨ off = env.nonterm.sum := by
+  have key : ∀ p : Store.Pos, firstInBlock env hd p = .ok off → off = 0 ∨ off = env.nonterm.sum := by
+    intro p hp
+    cases p with
+    | entry => simp only [firstInBlock, Except.ok.injEq] at hp; exact Or.inl hp.symm
+    | anywhere =>
+      simp only [firstInBlock] at hp
+      split at hp
+      · simp only [Except.ok.injEq] at hp; exact Or.inl hp.symm
+      · cases hp
+    | exit =>
+      simp only [firstInBlock] at hp
+      split at hp
+      · cases hp
+      · split at hp
+        · cases hp
+        · simp only [Except.ok.injEq] at hp; exact Or.inr hp.symm
+  cases sc with
+  | specific b o r => exact absurd rfl (hs b o r)
+  | allBlocks p e => simp only [firstOffset] at h; split at h; · cases h
+                     · exact key p h
+  | single b p => simp only [firstOffset] at h; split at h; · cases h
+                  · exact key p h
+  | allFunctions en p fs => simp only [firstOffset] at h; split at h; · cases h
+                            · exact key p h
+
+/-! non-vacuity: two insertions and a replacement at one offset, registered replacement first -/
+private def envX : BlockEnv := { id := 7, isCode := true, func := none, nonterm := [1, 2], partialDis := false }
+private def regsX : List Mod :=
+  [{ id := 0, scope := .specific 7 3 2 }, { id := 1, scope := .allBlocks .exit none },
+   { id := 2, scope := .single 7 .entry }, { id := 3, scope := .single 8 .entry }]
+example : ((build regsX).modificationsFor envX).map (·.id) = [0, 2, 1] := by decide
+example : (resolveOffsets envX ((build regsX).modificationsFor envX)).toOption.map (·.map (fun x => (x.1.id, x.2))) =
+    some [(2, 0), (1, 3), (0, 3)] := by decide
+example : (match resolveOffsets envX [{ id := 0, scope := .specific 7 0 2 }, { id := 1, scope := .specific 7 1 0 }] with
+    | .error (.assertion s) => s
+    | .ok _ => "") = "modifications overlap" := by decide
+
+end store
 
 end GtirbVerif.Props.C07
